@@ -17,7 +17,7 @@ def keyfun(letter):
 class C15(PropBase):
     id = "C15"
     lean_modules = ["SqModel.Props.C15"]
-    rule = ("table states of 14 aircraft with ties, blanks, negative rates and positions less than a degree / a kilometre apart; "
+    rule = ("table states of 18 aircraft with ties, blanks, negative rates and positions less than a degree / a kilometre / a hundred metres apart; "
             "all -o strings of length <= 2 over the key alphabet plus junk letters (quick: sampled); row sequence parsed from the "
             "real Planes::print output: must be a permutation of the table's key set and monotone in the last recognised key among "
             "rows whose key is known; ascending addresses when no key is recognised; compared with the model's order. Non-trivial "
@@ -35,6 +35,14 @@ class C15(PropBase):
             ac = F.ac12_q1(1560)
             extra += [F.df17(5, a, F.me_airpos(11, 0, 0, ac, 0, 0, *e)), F.df17(5, a, F.me_airpos(11, 0, 0, ac, 0, 1, *o)),
                       F.df5(0, 0, 0, F.id13_of_squawk(7, 0, 0, 0), a)]
+        # a cluster within about a hundred metres, 20 km from the observer: keys that differ only in the second decimal
+        for i in range(4):
+            a = 0x3C9800 + i
+            addrs.append(a); pre.append(F.df11(5, a, 0))
+            lat = Fraction(5284, 100) + Fraction(rng.randrange(-8, 9), 10000); lon = Fraction(-862, 100) + Fraction(rng.randrange(-8, 9), 10000)
+            e = F.cpr_encode(lat, lon, 0); o = F.cpr_encode(lat, lon, 1)
+            ac = F.ac12_q1(1560 + i)
+            extra += [F.df17(5, a, F.me_airpos(11, 0, 0, ac, 0, 0, *e)), F.df17(5, a, F.me_airpos(11, 0, 0, ac, 0, 1, *o))]
         return addrs, pre, body + extra
 
     def explore(self, rep, run, rng, tier, driver_ok):
